@@ -553,7 +553,7 @@ Proof.
   do 2 eexists; split; [reflexivity|]. split.
   - assert (H2 : Inv (set_retx t1 (map (fun tx => mkTx (t_seg tx) false) (retx t1)))).
     { apply Inv_set_retx; [assumption|]. apply Forall_map_tx; [reflexivity|apply H1]. }
-    destruct (_ ++ _); [assumption|]. apply Inv_set_rto; [assumption|apply rto_ok_RTO].
+    destruct (map t_seg _); [assumption|]. apply Inv_set_rto; [assumption|apply rto_ok_RTO].
   - apply Forall_app. split.
     + pose proof (i_oneshot _ HI) as Ho. induction Ho; cbn; constructor; auto. apply wf_seg_nil; assumption.
     + apply Forall_map_seg, Forall_filter, H1.
